@@ -393,10 +393,15 @@ class SNum:
         return self._arith(o, "div", True)
 
     def __floordiv__(self, o):
-        # float // positive constant: floor of the (rounded) quotient, returned as a float
-        q = self._arith(o, "div")
-        fl = sfloor(q)
-        return SNum(z3.ToReal(zint(fl)), "float")
+        # float // number: CPython computes it through fmod, i.e. the floor of the exact quotient
+        # (assumed contract of float.__floordiv__), returned as an integral float
+        ot = zreal(o)
+        p = cur()
+        if not p.entails(ot > 0):
+            raise Inapplicable("float floor division by a divisor not known to be positive")
+        k = p.fresh_int("ffl")
+        p.assume(z3.And(z3.ToReal(k) * ot <= self.t, self.t < (z3.ToReal(k) + 1) * ot))
+        return SNum(z3.ToReal(k), "frac" if self.kind == "frac" else "float")
 
     def __neg__(self):
         return SNum(-self.t, self.kind)
